@@ -220,6 +220,12 @@ def check_truth(prog: Program, res: Result) -> None:
                         n_tid += 1
                         res.ob("C09-truth", True, fi.qualname, f"track id tested by identity: {short(c, 50)}", "", sample=short(c, 60))
                 for o in _truthy_operands(t):
+                    if isinstance(o, ast.Name):
+                        # a LIST of ids tested for emptiness is not an id tested for truth
+                        binds = [getattr(b_, "value", None) for b_ in astq.assignments_to(fi.node, o.id)]
+                        is_list = bool(binds) and all(isinstance(v_, (ast.List, ast.ListComp)) or (isinstance(v_, ast.Call) and norm(v_.func) == "list") for v_ in binds)
+                        if is_list:
+                            continue
                     x = astq.xnorm(fi.node, o)
                     if "track_id" in x and "track_ids)" not in x:
                         res.touch(fi)
